@@ -152,8 +152,10 @@ def run(prop, tier, seed, ws, directives, args, t_start):
             opts["unwind"] = int(dv["unwind_thorough"])
         if "map_perm_max" in dv:
             opts["map_perm_max"] = int(dv["map_perm_max"])
-        if dv.get("conc"):
-            opts["conc"] = True
+        if dv.get("sched") == "coop":
+            opts["no_preempt"] = True
+        if dv.get("time") == "concrete":
+            opts["concrete_time"] = True
         opts["job_seconds"] = 15
         max_paths = int(dv.get("max_paths", 400000))
         budget_s = float(dv.get("budget_s", 900 if tier == "quick" else 3600))
